@@ -112,7 +112,7 @@ theorem pgPrimes_coreTo (l1raw kib B start stop : ℕ) (hB : B ≤ 2 ^ 64) (hfl 
   exact pgPrimes_spec _ (fun a b _ => (coreEnvTo_genSpec _ _ l1raw kib B hB hfl hk hk2).primes_spec a b) start stop hu
 
 /-- `PrimesIn` determines the list -/
-theorem PrimesIn.unique {l l' : List ℕ} {a b : ℕ} (h : PrimesIn l a b) (h' : PrimesIn l' a b) : l = l' :=
+theorem PrimesIn.uniqueC2 {l l' : List ℕ} {a b : ℕ} (h : PrimesIn l a b) (h' : PrimesIn l' a b) : l = l' :=
   List.Pairwise.eq_of_mem_iff h.1 h'.1 (fun q => by rw [h.2 q, h'.2 q])
 
 end Pc.It
